@@ -10,13 +10,6 @@ open Compio.Gen.OpTable (Driver Kind rows)
 
 namespace C08
 
-def kindOf (op : String) (d : Driver) : Option Kind :=
-  match rows.find? fun r => r.op = op ∧ r.driver = d with
-  | some r => match r.mainKinds with
-    | [k] => some k
-    | _ => none
-  | none => none
-
 def pattern (fill n : Nat) : Bytes := (List.range n).map fun j => UInt8.ofNat (fill + j)
 
 def optNat (s : String) : Option (Option Nat) := if s = "-" then some none else s.toNat?.map some
@@ -67,49 +60,11 @@ def showReadVec (n : Nat) (bs : List Buf) : String :=
 
 def allWf (bs : List Buf) : Bool := bs.all fun b => decide b.wf
 
-def two63 : Nat := 2 ^ 63
-def minusOne : Nat := 2 ^ 64 - 1
-
-/-- what a positional read of `total` offered bytes (`nIov` ranges, `vectored`) at `pos` sees:
-`Except errno (file bytes, effective position, whether the handle position advances)`.
-Kernel rules reproduced: `EBADF` without read access, `EISDIR` on a directory (a vectored read offering
-0 bytes returns 0 instead), `EINVAL` for a negative `loff_t` or `pos + total` beyond it.
-Driver differences reproduced as the code has them (findings C08b, C08c): io_uring completes a single
-0-byte read on a directory with 0, and takes offset `u64::MAX` (-1) for "use and advance the file position". -/
-def readView (d : Driver) (s : St) (h : Handle) (pos total : Nat) (vectored : Bool) :
-    Except Nat (Bytes × Nat × Bool) :=
-  if !h.r then .error EBADF else
-  match h.ino with
-  | none =>
-    if total = 0 ∧ (vectored ∨ d = .iour) then .ok ([], 0, false) else .error EISDIR
-  | some i =>
-    if pos = minusOne ∧ d = .iour then .ok (s.content i, h.pos, true)
-    else if pos ≥ two63 then .error EINVAL
-    else if pos + total > two63 - 1 then .error EINVAL
-    else .ok (s.content i, pos, false)
-
-def advancePos (s : St) (hid : Nat) (h : Handle) (adv : Bool) (n : Nat) : St :=
-  if adv then { s with handles := insert s.handles hid { h with pos := h.pos + n } } else s
-
-/-- write positions/lengths beyond this are not executed by the harness (sparse giant files, `EFBIG`/`SIGXFSZ`) -/
-def writeLimit : Nat := 2 ^ 24
-
 def writable (h : Handle) : Except Nat Nat :=
   if !h.w then .error EBADF else
   match h.ino with
   | none => .error EBADF
   | some i => .ok i
-
-/-- positional write of `data`; offset `u64::MAX` is -1: `EINVAL` from `pwrite`, "use and advance the file
-position" for io_uring (finding C08c) -/
-def writeAtPos (d : Driver) (s : St) (hid : Nat) (h : Handle) (ino pos : Nat) (data : Bytes) : St × String :=
-  if pos = minusOne then
-    match d with
-    | .poll => (s, s!"err {EINVAL}")
-    | .iour =>
-      let s := s.setContent ino (pwrite (s.content ino) h.pos data)
-      (advancePos s hid h true data.length, s!"ok {data.length}")
-  else (s.setContent ino (pwrite (s.content ino) pos data), s!"ok {data.length}")
 
 def pipeLimit : Nat := 32768
 
@@ -137,7 +92,7 @@ def stepD (d : Driver) (s : St) (w : List String) : St × String :=
       | none => (s, "nohandle")
     | none => (s, "bad-op")
   | ["readat", h, pos, buf] =>
-    match h.toNat?, pos.toNat?, parseRBuf buf, kindOf "ReadAt" d with
+    match h.toNat?, pos.toNat?, parseRBuf buf, kindOf .ReadAt d with
     | some h, some pos, some b, some k =>
       match lookup s.handles h with
       | none => (s, "nohandle")
@@ -148,7 +103,7 @@ def stepD (d : Driver) (s : St) (w : List String) : St × String :=
         | .ok (f, p, adv) => let (n, b') := readOp k b f p; (advancePos s h hd adv n, showRead n b')
     | _, _, _, _ => (s, "bad-op")
   | ["readv", h, pos, bufs] =>
-    match h.toNat?, pos.toNat?, allSome ((listOf bufs).map parseRBuf), kindOf "ReadVectoredAt" d with
+    match h.toNat?, pos.toNat?, allSome ((listOf bufs).map parseRBuf), kindOf .ReadVectoredAt d with
     | some h, some pos, some bs, some k =>
       match lookup s.handles h with
       | none => (s, "nohandle")
@@ -159,7 +114,7 @@ def stepD (d : Driver) (s : St) (w : List String) : St × String :=
         | .ok (f, p, adv) => let (n, bs') := readVecOp k bs f p; (advancePos s h hd adv n, showReadVec n bs')
     | _, _, _, _ => (s, "bad-op")
   | ["writeat", h, pos, buf] =>
-    match h.toNat?, pos.toNat?, parseWBuf buf, kindOf "WriteAt" d with
+    match h.toNat?, pos.toNat?, parseWBuf buf, kindOf .WriteAt d with
     | some h, some pos, some b, some k =>
       match lookup s.handles h with
       | none => (s, "nohandle")
@@ -171,7 +126,7 @@ def stepD (d : Driver) (s : St) (w : List String) : St × String :=
         | .ok i => writeAtPos d s h hd i pos (b.offeredBytes k)
     | _, _, _, _ => (s, "bad-op")
   | ["writev", h, pos, bufs] =>
-    match h.toNat?, pos.toNat?, allSome ((listOf bufs).map parseWBuf), kindOf "WriteVectoredAt" d with
+    match h.toNat?, pos.toNat?, allSome ((listOf bufs).map parseWBuf), kindOf .WriteVectoredAt d with
     | some h, some pos, some bs, some k =>
       match lookup s.handles h with
       | none => (s, "nohandle")
@@ -245,7 +200,7 @@ def stepD (d : Driver) (s : St) (w : List String) : St × String :=
         else (s, "bad-op")
     | none => (s, "bad-op")
   | ["pwrite", p, buf] =>
-    match p.toNat?, parseWBuf buf, kindOf "Write" d with
+    match p.toNat?, parseWBuf buf, kindOf .Write d with
     | some p, some b, some k =>
       match lookup s.pipes p with
       | none => (s, "nohandle")
@@ -259,7 +214,7 @@ def stepD (d : Driver) (s : St) (w : List String) : St × String :=
         ({ s with pipes := insert s.pipes p { pp with buf := pp.buf ++ data } }, s!"ok {data.length}")
     | _, _, _ => (s, "bad-op")
   | ["pwritev", p, bufs] =>
-    match p.toNat?, allSome ((listOf bufs).map parseWBuf), kindOf "WriteVectored" d with
+    match p.toNat?, allSome ((listOf bufs).map parseWBuf), kindOf .WriteVectored d with
     | some p, some bs, some k =>
       match lookup s.pipes p with
       | none => (s, "nohandle")
@@ -273,7 +228,7 @@ def stepD (d : Driver) (s : St) (w : List String) : St × String :=
         ({ s with pipes := insert s.pipes p { pp with buf := pp.buf ++ data } }, s!"ok {data.length}")
     | _, _, _ => (s, "bad-op")
   | ["pread", p, buf] =>
-    match p.toNat?, parseRBuf buf, kindOf "Read" d with
+    match p.toNat?, parseRBuf buf, kindOf .Read d with
     | some p, some b, some k =>
       match lookup s.pipes p with
       | none => (s, "nohandle")
@@ -285,7 +240,7 @@ def stepD (d : Driver) (s : St) (w : List String) : St × String :=
         ({ s with pipes := insert s.pipes p { pp with buf := pp.buf.drop n } }, showRead n b')
     | _, _, _ => (s, "bad-op")
   | ["preadv", p, bufs] =>
-    match p.toNat?, allSome ((listOf bufs).map parseRBuf), kindOf "ReadVectored" d with
+    match p.toNat?, allSome ((listOf bufs).map parseRBuf), kindOf .ReadVectored d with
     | some p, some bs, some k =>
       match lookup s.pipes p with
       | none => (s, "nohandle")
@@ -309,34 +264,34 @@ def stepD (d : Driver) (s : St) (w : List String) : St × String :=
       | .error e => (s, s!"err {e}")
     | none => (s, "bad-op")
   | ["fseqread", h, buf] =>
-    match h.toNat?, parseRBuf buf, kindOf "Read" d with
+    match h.toNat?, parseRBuf buf, kindOf .Read d with
     | some h, some b, some k =>
       match lookup s.handles h with
       | none => (s, "nohandle")
       | some hd =>
         if !decide b.wf then (s, "panic") else
-        match d with
-        | .poll => (s, s!"err {EPERM}")
-        | .iour =>
-          match readView d s hd 0 (b.offered k).2 false with
+        match seqOffset d hd.pos with
+        | .error e => (s, s!"err {e}")
+        | .ok off =>
+          match readView d s hd off (b.offered k).2 false with
           | .error e => (s, s!"err {e}")
-          | .ok (f, _, _) => let (n, b') := readOp k b f 0; (s, showRead n b')
+          | .ok (f, _, _) => let (n, b') := readOp k b f off; (s, showRead n b')
     | _, _, _ => (s, "bad-op")
   | ["fseqwrite", h, buf] =>
-    match h.toNat?, parseWBuf buf, kindOf "Write" d with
+    match h.toNat?, parseWBuf buf, kindOf .Write d with
     | some h, some b, some k =>
       match lookup s.handles h with
       | none => (s, "nohandle")
       | some hd =>
         if !decide b.wf then (s, "panic") else
-        match d with
-        | .poll => (s, s!"err {EPERM}")
-        | .iour =>
+        match seqOffset d hd.pos with
+        | .error e => (s, s!"err {e}")
+        | .ok off =>
           match writable hd with
           | .error e => (s, s!"err {e}")
           | .ok i =>
             let data := b.offeredBytes k
-            (s.setContent i (pwrite (s.content i) 0 data), s!"ok {data.length}")
+            (s.setContent i (pwrite (s.content i) off data), s!"ok {data.length}")
     | _, _, _ => (s, "bad-op")
   | _ => (s, "bad-op")
 
